@@ -148,7 +148,8 @@ def run(ctx):
     ctx.rule = ("TLC enumerates: every admissible parameter tuple (kxx,kyy,kzz in 1..3 (0..3 thorough), cross terms in -1..1) "
                 "under 6 argument patterns - all tuples of a pattern are the cells of ONE real tensor; every rotation P*B "
                 "(P signed permutation, B in {3-4-5 rotations about each axis, a /3 and a /7 rotation, identity}) applied to "
-                "the tensor of all admissible cells; every sequence of distinct cells of a 4-cell catalogue for "
+                "the tensor of all admissible cells, and to HOMOGENEOUS tensors (1 cell / 3 identical cells) for every diagonal tuple, "
+                "three full tuples and the argument patterns kxx-only and kxx+kzz; every sequence of distinct cells of a 4-cell catalogue for "
                 "restrict_to_cells; copy() after every signed permutation rotation with in-place writes through every array "
                 "of either object; fourth order: all (mu, lambda[, phi]) cells, with and without an additional field. "
                 "evaluations = cells x scenarios; case class = (kind, scenario, argument pattern / rotation denominator)")
@@ -158,21 +159,37 @@ def run(ctx):
                        "arrays of the other object compared), the private basis matrices of other_fields are not written"]
     heap_design(ctx)
     cases = []
+
+    def add(inp):
+        out = execute(inp)
+        cases.append({"in": inp, "out": out})
+        hom = len(inp["cells"]) <= 3 and inp["scen"] == "rotate"
+        key = (inp["kind"], inp["scen"], tuple(inp["giv"]) if inp["scen"] == "build" or hom else inp["rot"]["q"], inp["extra"],
+               len(inp["sel"]), hom)
+        ctx.case(key=key, n=len(inp["cells"]))
+        if len(ctx.samples) < 6 and inp["scen"] != "build" and len(cases) % 37 == 1:
+            ctx.sample({"in": dict(inp, cells=inp["cells"][:2]),
+                        "out": {k: (v[:1] if isinstance(v, list) else v) for k, v in out.items() if k != "trials"}})
+
     for kind in ("second", "fourth"):
         for r in enumerate_kind(ctx, kind):
-            inp = dict(kind=r["kind"], scen=r["scen"], cells=sorted(r["cells"]) if r["scen"] in ("build", "rotate") else r["cells"],
-                       extra=r["extra"], giv=r["giv"], rot=r["rot"], sel=r["sel"])
-            out = execute(inp)
-            cases.append({"in": inp, "out": out})
-            key = (inp["kind"], inp["scen"], tuple(inp["giv"]) if inp["scen"] == "build" else inp["rot"]["q"], inp["extra"],
-                   len(inp["sel"]))
-            ctx.case(key=key, n=len(inp["cells"]))
-            if len(ctx.samples) < 6 and inp["scen"] != "build":
-                ctx.sample({"in": dict(inp, cells=inp["cells"][:2]),
-                            "out": {k: (v[:1] if isinstance(v, list) else v) for k, v in out.items() if k != "trials"}})
+            if r["scen"] == "rothom":
+                # homogeneous tensors: one real tensor per (tuple, argument pattern, number of identical cells)
+                for p, giv, nc in sorted(r["homs"], key=repr):
+                    add(dict(kind=r["kind"], scen="rotate", cells=[p] * nc, extra=False, giv=giv, rot=r["rot"], sel=[]))
+                continue
+            add(dict(kind=r["kind"], scen=r["scen"], cells=sorted(r["cells"]) if r["scen"] in ("build", "rotate") else r["cells"],
+                     extra=r["extra"], giv=r["giv"], rot=r["rot"], sel=r["sel"]))
     ctx.extra["objects"] = len(cases)
-    for lo in range(0, len(cases), 400):
-        judge(ctx, cases[lo:lo + 400])
+    slab, w = [], 0
+    for c in cases:
+        slab.append(c)
+        w += len(c["in"]["cells"]) + 3
+        if w >= 25000:
+            judge(ctx, slab)
+            slab, w = [], 0
+    if slab:
+        judge(ctx, slab)
     ctx.exhaustive = True
 
 
